@@ -1,4 +1,4 @@
-"""Registry: what each property's check consists of (obligation files, drivers, projections)."""
+"""Registry: what each property's check consists of (theorem files, per-run table obligations, drivers)."""
 import json
 import os
 import subprocess
@@ -6,36 +6,90 @@ import subprocess
 import vlib
 
 REGISTRY = {}
-
-
-def prop(f):
-    REGISTRY[f.__name__] = f
-    return f
+SPEC = {}
 
 
 def replay(prop_id, path):
     d = json.load(open(path))
-    print(json.dumps(d, indent=1)[:6000])
-    # re-run the recorded inputs on the current tree through the driver's replay entry
-    drv = None
-    for v in d.get("failing_inputs", []):
-        drv = v.get("driver")
-        if drv:
-            p = subprocess.run([vlib.PY, os.path.join(vlib.VERIF, "corr", "replay.py"), path], env=vlib.impl_env(), capture_output=True, text=True)
-            print(p.stdout[-6000:], p.stderr[-2000:])
-            return p.returncode
-    return 0
+    print(json.dumps(d, indent=1)[:8000])
+    p = subprocess.run([vlib.PY, os.path.join(vlib.VERIF, "corr", "replay.py"), path], env=vlib.impl_env(), capture_output=True, text=True)
+    print(p.stdout[-8000:], p.stderr[-2000:])
+    return p.returncode
 
 
-@prop
-def C08(ck):
-    ck.assumptions += ["the CRC damage theorems are stated for the model's parse gate; the reader-level consequence uses Model/Reader.parse",
-                       "direct search samples frames; exhaustiveness of single-bit and adjacent-pair flips is per sampled frame"]
-    if ck.setup_generic():
-        ck.compile_properties("Properties/C08.v")
-        m = ck.run_driver("crc")
-        ck.compare(m)
-    return ck.finish(
-        "CRC-24Q model proved equal to the GF(2) remainder for all byte strings; detection of odd, burst<=24 and two-bit damage proved; "
-        "model tied to calc_crc24q/crc2bytes/len2bytes by correspondence; implementation also searched directly",
-        "byte strings of lengths 0..40,255..2000, zeros/ones/single-bit/random/valid frames; damage: all single-bit and adjacent-pair flips of sampled frames, random 2-bit, odd, burst<=24")
+def define(pid, propfile, insts, drivers, text, rule, assumptions=(), diag=None):
+    SPEC[pid] = dict(propfile=propfile, insts=insts, drivers=drivers, text=text, rule=rule)
+
+    def run(ck):
+        ck.assumptions += list(assumptions)
+        if ck.setup_generic():
+            if propfile:
+                ck.compile_properties(propfile)
+            need_tables = bool(insts) or any(d != "crc" for d, _ in drivers)
+            ok_tables = ck.tables() if need_tables else True
+            if ok_tables:
+                for inst in insts:
+                    ok, where, log = ck.compile_instance(inst)
+                    if not ok and diag:
+                        out = ck.diagnose(diag)
+                        ck.notes.append("table diagnosis: " + out[-1500:])
+                for drv, args in drivers:
+                    m = ck.run_driver(drv, args)
+                    if m is not None and m.get("n_cases", 0):
+                        ck.compare(m)
+        return ck.finish(text, rule)
+    run.__name__ = pid
+    REGISTRY[pid] = run
+
+
+RD = "hostile / well-formed item streams (valid frames of all types incl. unknown and boundary lengths, damaged, reserved-bit headers, NMEA, UBX, sync-dense noise, truncated tails) x fault schedules"
+
+define("C01", "Properties/C01.v", ["C01_inst.v"], [("reader", [])],
+       "Theorem: for every lawful stream (file with any fault schedule; socket wrapper with any recv events), every constructor and error mode, any number of successive reads, the yielded frames are disjoint slices of the input in order, each a well-formed frame whose parsed message is the constructor applied to exactly that slice's payload. Instantiated at the regenerated framing constants; reader model tied to RTCMReader by correspondence incl. exhaustive single faults; implementation output also checked directly against an independent frame oracle.",
+       RD + " (none / single fault at every call index x 3 kinds / random)", ["streams are modelled as total read/readline functions: exceptions raised by the stream object itself are outside the theorem"])
+define("C02", "Properties/C02.v", ["C02_inst.v"], [("reader", [])],
+       "Theorem: for every list of well-formed items and every constructor, iteration yields exactly the frames whose payload parses, byte for byte, in order, then ends, consuming the whole stream; zero-length and 1023-byte frames handled (corollaries). NMEA/UBX header tables and constants are per-run table theorems.",
+       "well-formed mixed streams of 2..40 items over BytesIO, BufferedReader and a fake socket", ["NMEA sentences with a listed talker; unlisted '$x' openers are covered by C01/C04 only"])
+define("C03", "Properties/C03.v", ["C06_inst.v"], [("msg", [])],
+       "Theorems: shift-and-mask extraction = bit slice of the payload (all offsets/widths); the model's field step equals the bit-list specification for every data type (two's complement, sign-magnitude, unsigned, character, scaled by resolution) under the indexed name; trailing bytes change nothing; (encoder round trip: see evidence.obligation_list). Model tied to RTCMMessage by correspondence on builder-made payloads of all 152 identities with bit-exact floats; implementation also compared directly with an independent encoder (values, single-field change, trailing bytes).",
+       "independent encoder over all identities x value modes (random, zeros, ones, sign bit) x counts 0..3 and maximal")
+define("C04", "Properties/C04.v", ["C06_inst.v"], [("msg", []), ("reader", [])],
+       "Theorems: the constructor never lets a foreign exception escape (all tables, payloads, options); short payloads give the message error; the static parser is total; read() never raises in ignore/log modes and raises only library errors in raise mode; the read loop consumes >= 1 byte per pass so iteration over a finite stream terminates (fuel never exhausted). Exhaustive header sweep (4096 numbers x lengths, 256 sub-types) and arbitrary streams by correspondence + direct search.",
+       "all 4096 message numbers x lengths 2..4(8), 256 sub-types, short payloads, mutations/truncations of builder payloads; arbitrary / hostile streams in 3 modes with and without faults",
+       ["Unmodelled outcomes of the model (table shapes outside the mirror) are excluded by the per-run layout well-formedness theorem and flagged by the correspondence"])
+define("C05", "Properties/C05.v", ["C02_inst.v"], [("reader", [])],
+       "Theorems: for every item list with CRC-detected damaged frames: ignore/log yield exactly the good frames in order, handler once per damaged frame in log mode and never in ignore mode; raise mode raises a parse error at each damaged frame between the good ones and the reader keeps working. Which damage is detected is C08.",
+       "streams of 2..11 valid frames with 1-bit / 2-bit / odd / burst damage in payload or checksum bytes, 3 modes, handler object and logger")
+define("C06", "Properties/C06.v", ["C06_inst.v"], [("msg", [])],
+       "Theorems: out-of-range extraction is an error never a value; a successful decode ends inside the payload; every truncation below the bits the fields occupy (identity still present) is rejected. label_zero_width and layout well-formedness are per-run table theorems.",
+       "every byte truncation (sampled in quick tier) of builder payloads of all identities")
+define("C08", "Properties/C08.v", [], [("crc", [])],
+       "Theorems: model of calc_crc24q = GF(2) remainder mod 0x1864CFB for all byte strings; self-check; xor-linearity; odd / burst<=24 / single / two-bit (distance < 2^23-1, order computed in-kernel) damage has non-zero CRC; the parse gate rejects it; validate=0 ignores the CRC bytes.",
+       "byte strings of lengths 0..40,255..2000 (zeros/ones/single-bit/random/valid frames); all single-bit and adjacent-pair flips of sampled frames, random 2-bit, odd, burst<=24",
+       ["direct damage search samples frames; the theorems cover all"])
+define("C09", "Properties/C09.v", ["C09_inst.v"], [("msg", [])],
+       "Theorems: the decoder's mask scans are the MSB-first positions of set bits; NSat/NSig/NCell = popcount = number of map entries; i-th satellite entry / k-th cell (satellite-major) labelled from the tables with the N/A marker for undefined ids, both label options; derived-label fields store exactly the map entry. Per run: the working tree's PRN/signal tables equal the pinned RTCM 10403.3 tables for all 7 constellations.",
+       "MSM payloads of all 49 types x mask shapes (random, full, empty, last slot, reserved ids, >64 cells) x both label options")
+define("C10", None, ["C10_inst.v"], [("tables", [])],
+       "Per-run kernel-decided table theorems on the regenerated tables: every layout well-formed (defined fields, counts/conditions refer to unscaled integer fields decoded earlier, no malformed node); every identity's length polynomial equals the pinned one (RTCM 10403.3 / IGS SSR v1); 107 sibling relations (combined = orbit + clock for GPS, GLONASS and six IGS constellations; extended contains basic; one MSM layout per level). Direct search: every identity decodes encoder-built payloads of the pinned length; bit transplants between sibling blocks decode to the same values.",
+       "all identities x 2..6 payloads; transplants for 8 combined triples and 35 parallel pairs", diag="C10_diag.v")
+define("C11", "Properties/C11.v", ["C02_inst.v"], [("sock", []), ("reader", [])],
+       "Theorems: for every recv-event list and read-size sequence: handed-out bytes ++ buffer ++ data to come is invariant; each read is full-length or empty; an empty read happens only at timeout/close/end and keeps everything received; data-only segmentations give identical reads; the reader over a socket yields the same complete trace as over a file for every segmentation of a well-formed stream.",
+       "streams of 1..120 bytes x exhaustive 1-cut/2-cut and random partitions x bufsizes x read/readline op sequences; reader over fake socket.socket subclass",
+       ["real kernels / timeouts are the recv-event list (environment parameter)"])
+define("C12", "Properties/C12.v", [], [("sock", [])],
+       "Theorems: for every well-formed chunked body, decoding oracle and placement of receive boundaries (also reads interleaved with receives, timeouts anywhere) the delivered bytes are the concatenation of the decoded chunk bodies.",
+       "11+ bodies (binary data with CRLF/hex digits, upper-case sizes, leading zeros, no last-chunk, gzip/zlib/deflate per chunk) x every single cut, sampled/all double cuts, sampled triple cuts, byte-wise",
+       ["zlib is an oracle: per-chunk decompression results are recorded from the implementation's zlib"])
+define("C16", "Properties/C16.v", [], [("msg", [])],
+       "Theorem (relational induction over the decoder): for all tables, payloads and option values the two constructions have the same outcome, same names in the same order, equal values except at attributes written by the derived cell-signal field; only 'is the option 2' matters.",
+       "MSM payloads (random / reserved / full masks) and 15..40 non-MSM types x label options 0,1,2,3")
+define("C17", "Properties/C17.v", ["C02_inst.v"], [("reader", [])],
+       "Theorems: validate off = decode as with the right checksum; the bytes taken per loop pass and the frame cut are independent of validate/parsed/labelmsm; parsed=False never yields a parsed object and yields frame-shaped slices.",
+       "option product validate x parsed x mode on good and wrong-checksum copies of mixed streams")
+define("C18", "Properties/C18.v", ["C18_inst.v"], [("helpers", [])],
+       "Theorems: parse_msm returns nothing (never raises) for non-MSM and reserved numbers; otherwise metadata + NSat/NCell rows equal to the indexed attributes in probe-list order; parse_4076_201 returns per layer the height and the maximal coefficient runs, its search loop always stops. Per run: probe lists cover all group keys of all MSM layouts, epoch keys are header fields.",
+       "all 49 MSM types x mask modes x label options, 4076_201 incl. >99 coefficients, other types, reserved MSM numbers")
+define("C19", "Properties/C19.v", ["C18_inst.v"], [("helpers", [])],
+       "Theorems: for every key and every list of positive indices (any digits, any depth): datadesc(render key idxs) = the field's description (given the per-run unambiguity theorem on the tables), att2idx/att2name invert the rendering for keys without underscore (per-run: every grouped key), rendering is injective, int(f'{i:02d}') = i.",
+       "every name generated on a corpus covering all identities + synthetic 3-digit / nested indices (about 1600 names)")
